@@ -108,9 +108,14 @@ TRUSTED = [
     "Gen/Tables.v (regenerated)",
     "modelled primitives: df.iloc / TensorFrame.__getitem__ positional semantics (Lib/PySlice.v py_positions), "
     "IEEE double multiply / compare, Python round / int on a double, the converter keeps row order",
-    "section hypotheses: torch.randperm(n) returns a permutation of 0..n-1 (checked on every shuffle); "
-    "np.random.seed(s); np.random.shuffle(a) applies an arrangement that depends on (s, len(a)) only and is a "
-    "permutation (checked on every generator case against distinct payloads under a different prior RNG state)",
+    "section hypothesis left: torch.randperm(n) returns a permutation of 0..n-1 (checked on every shuffle).  numpy's "
+    "seeded shuffle is no longer a hypothesis: coq/Model/NpShuffle.v models np.random.shuffle (legacy Fisher-Yates loop "
+    "+ random_interval's mask / rejection rule) over the raw MT19937 next_uint32() word stream, proves that it permutes "
+    "for every stream and that the arrangement ignores the values, and the correspondence recomputes "
+    "generate_random_split's output from the word stream RandomState(seed).randint(0, 2**32, dtype=uint32) on a third of "
+    "the accepted points with n <= 64 and on every boundary point (split_case_fy); the remaining black box is the "
+    "Mersenne-Twister word stream itself and that np.random.seed(seed) resets it regardless of the prior state "
+    "(observed on every point under two prior states)",
     "harness/c09.py (generator, row-id bookkeeping oracle in plain Python lists, Coq literal printer); "
     "harness/ragged.py ref_positions (Python list index semantics)",
 ]
@@ -143,8 +148,8 @@ ASSUMPTIONS = [
     "of derived datasets altering their source",
     "that the DataFrame's index labels are never consulted holds of the model by construction (no model function "
     "reads a label); for the code it is observed under eight label kinds",
-    "numpy's arrangement depends on (seed, length) only: carried by the type of np_perm in Model/Split.v, i.e. an "
-    "assumption next to H_shuffle_perm, validated on every generator point",
+    "numpy's arrangement depends on (seed, length) only: np_shuffle_arrangement_ignores_values proves the independence "
+    "from the values for the modelled algorithm; that seeding erases the prior global state is observed on every point",
     "materialize() is modelled as succeeding unless a col_to_stype column names two frame columns (repeated name in "
     "col_select); other materialization failures are C01's subject.  col_select appending the target to the "
     "CALLER's list is not modelled (the harness passes fresh lists)",
@@ -1591,8 +1596,8 @@ def coq_term_gen_pt(case, obs):
     exp = C.copt(a["arr"], lambda l: C.clist(l, C.cz)) if a["ok"] else "None"
     if a["ok"] and (a["ndim"] != 1):
         return None
-    if a["ok"] and "words" in obs and (case["n"] <= 64 or case.get("b")) and (case["prior"] % 2 == 0 or case.get("b")):
-        # (half of the points with n <= 64 and every boundary point, to bound the size of the Coq terms)
+    if a["ok"] and "words" in obs and (case["n"] <= 64 or case.get("b")) and (case["prior"] % 3 == 0 or case.get("b")):
+        # (a third of the points with n <= 64 and every boundary point, to bound the size of the Coq terms)
         # numpy's shuffle recomputed by the model (Fisher-Yates + random_interval) from the raw word stream
         return (f"split_case_fy {C.clist(obs['words'], C.cz)} {C.cz(case['n'])} {C.cz(case['seed'])} "
                 f"{coq_float(case['tr'])} {coq_float(case['vr'])} {C.cbool(case['include_test'])} {exp}")
